@@ -265,6 +265,10 @@ pub struct SupOut {
     pub fired: Vec<usize>,
     /// supervisor's view when a timeout hit: description of thread states
     pub hang_state: Option<String>,
+    /// at a timeout: per live thread (role, scheduler state, current syscall if inside one)
+    pub hang_threads: Vec<(Role, String, Option<Sys>)>,
+    /// total number of system calls seen (all threads, all paths)
+    pub total_calls: u64,
     /// unknown syscalls seen on sandbox paths
     pub unknown: usize,
     /// roles by thread index
@@ -1295,6 +1299,12 @@ impl Sup {
                     if Instant::now() > deadline && !out.timed_out {
                         out.timed_out = true;
                         out.hang_state = Some(sup.describe_threads());
+                        out.hang_threads = sup
+                            .threads
+                            .iter()
+                            .filter(|t| t.state != TState::Dead)
+                            .map(|t| (t.role, format!("{:?}", t.state), if t.in_sys { t.cur_ev.map(|e| sup.log[e].sys) } else { None }))
+                            .collect();
                         unsafe { libc::kill(pid, libc::SIGKILL) };
                     }
                     sup.tick();
@@ -1371,6 +1381,7 @@ impl Sup {
         out.valve_releases = sup.valve;
         out.fired = sup.fired.clone();
         out.unknown = sup.unknown;
+        out.total_calls = sup.stamp / 2;
         out.log = sup.log.into_iter().filter(|e| e.nr >= 0).collect();
         out.wall = t0.elapsed();
         out
